@@ -83,11 +83,7 @@ func (s *rpcServer) replyRPC(ctx context.Context, w http.ResponseWriter, result 
 }
 
 func (s *rpcServer) sniffFirstByte(data []byte) byte {
-	sniffLen := len(data)
-	if sniffLen > 100 {
-		sniffLen = 100
-	}
-	for _, b := range data[0:sniffLen] {
+	for _, b := range data {
 		if !unicode.IsSpace(rune(b)) {
 			return b
 		}
